@@ -13,7 +13,7 @@ def main():
     rows = []
     for d in sorted(os.listdir(os.path.join(ROOT, "seeded"))):
         dd = os.path.join(ROOT, "seeded", d)
-        if not os.path.isdir(dd) or (sel and not any(s in d for s in sel)):
+        if not os.path.isdir(dd) or not os.path.exists(os.path.join(dd, "meta.json")) or (sel and not any(s in d for s in sel)):
             continue
         meta = json.load(open(os.path.join(dd, "meta.json")))
         prop = meta["property"]
@@ -26,9 +26,14 @@ def main():
             if r.returncode != 0:
                 rows.append((d, prop, "patch does not apply", "")); continue
             t0 = time.time()
-            r = sh(f"cd {ROOT} && VERIF_ROOT_OVERRIDE={mutroot} ./check {prop} quick")
-            clauses = [l.strip() for l in r.stdout.splitlines() if l.strip().startswith("clause=")]
-            rows.append((d, prop, f"exit {r.returncode}", clauses[0] if clauses else ""))
+            # the property's own check first, then any other check recorded as the one that catches it
+            checks = [prop] + [c for c in meta.get("detected_by", []) if c != prop]
+            for chk in checks:
+                r = sh(f"cd {ROOT} && VERIF_ROOT_OVERRIDE={mutroot} ./check {chk} quick")
+                clauses = [l.strip() for l in r.stdout.splitlines() if l.strip().startswith("clause=")]
+                if r.returncode == 1:
+                    break
+            rows.append((d, prop if chk == prop else f"{prop} (caught by {chk})", f"exit {r.returncode}", clauses[0] if clauses else ""))
             meta["last_rerun"] = {"exit": r.returncode, "clause": clauses[0] if clauses else "", "secs": round(time.time() - t0, 1)}
             json.dump(meta, open(os.path.join(dd, "meta.json"), "w"), indent=1)
         finally:
